@@ -198,7 +198,7 @@ private def s (x : String) : Str := x.toList
         = [s "p\n"]
 #guard ((run init [.setInput (.many [s "1", s "2"]) true, .queueInput [s "3"],
           .exec none [.read [], .read []], .exec none [.read [], .read []]]).contexts.map Ctx.inputs)
-        = [[s "1", s "2"], [s "3", s "0"]]
+        = [[s "1", s "2"], [s "3", defaultStr]]
 #guard rstrip (s "a \t\x0b\x0c\r\n\x1c\x1d\x1e\x1f\u0085  　") = s "a"
 #guard rstrip (s " a​") = s " a​"
 #guard splitNL (s "a\n\nb\n") = [s "a", s "", s "b", s ""]
